@@ -62,6 +62,7 @@ mutual
       -- `var i = init` runs first; the test reads `i` and `lim`, the update `i` and `incr`
       if D.contains lim && allIn D (readsE init) && allIn (i :: D) (readsE incr) && (scopedStmts (i :: D) body).isSome
       then some (i :: D) else none
+    | .switchS e cases => if allIn D (readsE e) && scopedCases D cases then some D else none
     | .ifPos lim body els =>
       if D.contains lim && (scopedStmts D body).isSome && (scopedStmts D els).isSome then some D else none
   def scopedStmts (D : List Bytes) : JsStmts → Option (List Bytes)
@@ -70,6 +71,11 @@ mutual
       match scopedStmt D s with
       | none => none
       | some D1 => scopedStmts D1 r
+  def scopedCases (D : List Bytes) : JsCases → Bool
+    | .nil => true
+    | .dflt body => (scopedStmts D body).isSome
+    | .cons labels body rest =>
+      labels.all (fun j => allIn D (readsE j)) && (scopedStmts D body).isSome && scopedCases D rest
   def scopedConds (D : List Bytes) : JsConds → Bool
     | .nil => true
     | .els body => (scopedStmts D body).isSome
@@ -208,6 +214,21 @@ theorem toAst_reads (D : List Bytes) (sc : Scope) (hc : Covers D sc) :
             simp only [Option.some.injEq] at h; subst h
             exact allIn_append (toAst_reads D sc hc a ja ha) (toAst_reads D sc hc b jb hb)
           · cases h
+
+theorem astList_reads (D : List Bytes) (sc : Scope) (hc : Covers D sc) : ∀ (values : List Expr) (js : List JsExpr),
+    astList sc values = some js → js.all (fun j => allIn D (readsE j)) = true
+  | [], js, h => by simp only [astList, Option.some.injEq] at h; subst h; rfl
+  | v :: r, js, h => by
+    unfold astList at h
+    cases hj : toAst sc v with
+    | none => simp [hj] at h
+    | some j =>
+      cases hr : astList sc r with
+      | none => simp [hj, hr] at h
+      | some jr =>
+        simp only [hj, hr, Option.some.injEq] at h; subst h
+        simp only [List.all_cons, Bool.and_eq_true]
+        exact ⟨toAst_reads D sc hc v j hj, astList_reads D sc hc r jr hr⟩
 
 /-! ## statements -/
 
@@ -382,7 +403,15 @@ mutual
     | .css .., _, _, _, h, _, _, _ => by simp [toCmd] at h
     | .debugger .., _, _, _, h, _, _, _ => by simp [toCmd] at h
     | .log .., _, _, _, h, _, _, _ => by simp [toCmd] at h
-    | .switch .., _, _, _, h, _, _, _ => by simp [toCmd] at h
+    | .switch p value cases, sc, r, D, h, hs, hc, hb => by
+      unfold toCmd at h
+      split at h
+      · rename_i j rc hj hrc
+        simp only [Option.some.injEq] at h; subst h
+        have := scoped_cases cases sc rc D hrc hs hc hb
+        obtain ⟨h1, _⟩ := toCases_scope ae buf cases sc rc hrc hs
+        exact ⟨D, by simp [scopedStmts_one, scopedStmt, this, toAst_reads D sc hc value j hj], hc.stack h1, Sub.refl D⟩
+      · cases h
     | .call .., _, _, _, h, _, _, _ => by simp [toCmd] at h
     | .letContent .., _, _, _, h, _, _, _ => by simp [toCmd] at h
     | .headerParam .., _, _, _, h, _, _, _ => by simp [toCmd] at h
@@ -423,6 +452,20 @@ mutual
           obtain ⟨s1, _, _⟩ := toCmd_scope ae buf c sc r1 h1 hs
           obtain ⟨D2, b1, b2, b3⟩ := scoped_cmds rest r1.2 r2 D1 h2 s1 a2 (a3 _ hb)
           exact ⟨D2, by rw [scopedStmts_append, a1]; exact b1, b2, a3.trans b3⟩
+  theorem scoped_cases : ∀ (cs : CaseList) (sc : Scope) (r : JsCases × Scope) (D : List Bytes), toCases ae buf cs sc = some r →
+      ScOk sc → Covers D sc → D.contains buf = true → scopedCases D r.1 = true
+    | .nil, sc, r, D, h, hs, hc, hb => by
+      simp only [toCases, Option.some.injEq] at h; subst h
+      rfl
+    | .cons p values body rest, sc, r, D, h, hs, hc, hb => by
+      unfold toCases at h
+      obtain ⟨rbv, hrb, hcj⟩ := caseJoin_some h
+      obtain ⟨D1, a1, _⟩ := scoped_block body sc rbv D hrb hs hc hb
+      obtain ⟨e1, e2⟩ := toBlock_scope ae buf body sc rbv hrb hs
+      rcases hcj with ⟨_, _, rfl⟩ | ⟨_, js, rr, hjs, hrr, rfl⟩
+      · simp [scopedCases, a1]
+      · have := scoped_cases rest rbv.2 rr D hrr (scOk_of_stack hs e1 e2) (hc.stack e1) hb
+        simp [scopedCases, a1, this, astList_reads D sc hc values js hjs]
   theorem scoped_conds : ∀ (cs : CondList) (sc : Scope) (r : JsConds × Scope) (D : List Bytes), toConds ae buf cs sc = some r →
       ScOk sc → Covers D sc → D.contains buf = true → scopedConds D r.1 = true
     | .nil, sc, r, D, h, hs, hc, hb => by
